@@ -231,6 +231,10 @@ class SymKit(KitBase):
     def setitem(self, v, i, value):
         self.I.setitem(wrap(v), wrap(i), wrap(value))
 
+    def callable(self, fn):
+        """A contract-level function passed into the analysed code as a callback."""
+        return LibFn(lambda I2, a, k, n: wrap(fn(*[unwrap(x) for x in a], **{kk: unwrap(v) for kk, v in k.items()})), "contract callback")
+
     def scalar(self, v):
         """Value of a scalar that may be delivered as a 0-d / 1x1 array."""
         from .ndarray import NDArr
@@ -348,6 +352,19 @@ class SymKit(KitBase):
             return NDArr.fresh(lambda *idx: SV(fv(*[zint(i) for i in idx]), fn(*[zint(i) for i in idx])), shape, "float")
         return NDArr.fresh(lambda *idx: SV(fv(*[zint(i) for i in idx])), shape, "float")
 
+    def array_pattern(self, name, pattern):
+        """1-D float array with a FIXED missing-value pattern: NaN where pattern[j], a symbolic real elsewhere."""
+        from .ndarray import NDArr
+        cells = []
+        for j, isnan in enumerate(pattern):
+            if isnan:
+                cells.append(SV(z3.RealVal(0), True))
+            else:
+                nm = f"{name}_{j}"
+                self.inputs[nm] = ("real", None, None, False, False)
+                cells.append(SV(z3.Real(nm)))
+        return self.lib.numpy.from_nested(self.I, cells, "float", (len(cells),))
+
     def snapshot(self, arr):
         return arr.copy()
 
@@ -359,6 +376,9 @@ class SymKit(KitBase):
 
     def nan_cell(self):
         return SV(z3.RealVal(0), True)
+
+    def is_cell(self, v):
+        return isinstance(v, SV)
 
     def real_cell(self, x):
         from .ndarray import norm_elem
@@ -572,6 +592,9 @@ class ConcKit(KitBase):
     def register_source(self, fn, src, label="generated"):
         pass
 
+    def callable(self, fn):
+        return fn
+
     def scalar(self, v):
         import numpy as np
         return float(np.asarray(v).reshape(-1)[0]) if isinstance(v, np.ndarray) else v
@@ -655,6 +678,16 @@ class ConcKit(KitBase):
         self.used[name] = arr.tolist()
         return arr
 
+    def array_pattern(self, name, pattern):
+        import numpy as np
+        vals = []
+        for j, isnan in enumerate(pattern):
+            if isnan:
+                vals.append(float("nan"))
+            else:
+                vals.append(self.real(f"{name}_{j}"))
+        return np.array(vals, dtype=float)
+
     def snapshot(self, arr):
         return arr.copy()
 
@@ -666,6 +699,9 @@ class ConcKit(KitBase):
 
     def nan_cell(self):
         return float("nan")
+
+    def is_cell(self, v):
+        return True
 
     def real_cell(self, x):
         return float(x)
